@@ -21,9 +21,6 @@ theorem wsHead_enc (ts : List Txt) (R : List Char) (h : WsHead R) : WsHead (enc 
 theorem enc_cons (t : Txt) (ts : List Txt) (R : List Char) : enc (t :: ts) ++ R = ' ' :: (t ++ (enc ts ++ R)) := by
   simp [enc]
 
-/-- a character at which the ignored terminal cannot start or continue -/
-def solid (c : Char) : Bool := !isBlank c && c ≠ '\n' && c ≠ '\r' && c ≠ '/'
-
 theorem skipIgn_solid (c : Char) (X : List Char) (h : solid c = true) : skipIgn false (c :: X) = c :: X := by
   simp only [solid, Bool.and_eq_true, Bool.not_eq_true', ne_eq, decide_not, decide_eq_false_iff_not] at h
   obtain ⟨⟨⟨h1, h2⟩, h3⟩, h4⟩ := h
@@ -281,9 +278,8 @@ theorem next_value (v : Txt) (h : vValue v = true) (R : List Char) :
   cases v with
   | nil => simp [vValue] at h
   | cons c0 x' =>
-    simp only [vValue, ne_eq, decide_not, Bool.and_eq_true, Bool.not_eq_true', decide_eq_false_iff_not, List.all_eq_true] at h
-    obtain ⟨⟨⟨⟨h1, h2⟩, h3⟩, h4⟩, h5⟩ := h
-    have hsolid : solid c0 = true := by simp [solid, h1, h2, h3, h4]
+    simp only [vValue, Bool.and_eq_true, List.all_eq_true] at h
+    obtain ⟨hsolid, h5⟩ := h
     have hp := plus_append isValueCh (c0 :: x') (';' :: R) (by simp) h5 (by intro c r e; cases e; decide)
     simp only [List.cons_append] at hp ⊢
     rw [sValue, next_skip _ c0 _ hsolid]
